@@ -37,10 +37,10 @@ import unittest
 from .recorders import next_seq
 
 BASE_KINDS = ("kbd", "exit", "kbdsub", "exitsub", "basedirect")
-FAILING = {"fail", "error", "failsub", "mismatch", "eqexc", "sameobj"} | set(BASE_KINDS)
+FAILING = {"fail", "error", "failsub", "mismatch", "eqexc", "sameobj", "emptymulti"} | set(BASE_KINDS)
 
 KIND_OUTCOME = {
-    "eqexc": "addError", "sameobj": "addError",
+    "eqexc": "addError", "sameobj": "addError", "emptymulti": "addError",
     "fail": "addFailure", "failsub": "addFailure", "mismatch": "addFailure",
     "error": "addError", "skip": "addSkip", "skipsub": "addSkip",
     "xfail": "addExpectedFailure", "uxs": "addUnexpectedSuccess",
@@ -241,6 +241,12 @@ def _do_raise(env, case, action, constituent=False):
         for sub in action[1]:
             infos.append(_make_exc_info(env, case, sub))
         env.log("raise_multi", action[2], len(infos))
+        if not infos:
+            # a MultipleExceptions that carries nothing: still an exception raised by user code (an error)
+            exc = MultipleExceptions()
+            env.raised.append(("emptymulti", action[2], exc))
+            env.log("raise", "emptymulti", action[2])
+            raise exc
         raise MultipleExceptions(*infos)
     kind, tok = action[1], action[2]
 
